@@ -54,6 +54,23 @@ pub struct NodeWrapper {
 
 impl NodeWrapper {
     fn from(node: &CfgNode, cfg: &Cfg) -> Self {
+        // (entry, exit) of every function that owns the node. The owners are a
+        // hash set: sort, so that equal analysis results give equal dumps.
+        let owners = node
+            .functions()
+            .iter()
+            .map(|func| {
+                (
+                    cfg.iter()
+                        .position(|other| func.entry().id() == other.id())
+                        .unwrap(),
+                    cfg.iter()
+                        .position(|other| func.exit().id() == other.id())
+                        .unwrap(),
+                )
+            })
+            .sorted()
+            .collect::<Vec<_>>();
         NodeWrapper {
             node: node.node(),
             labels: node
@@ -61,24 +78,8 @@ impl NodeWrapper {
                 .iter()
                 .map(std::string::ToString::to_string)
                 .collect(),
-            func_entry: node
-                .functions()
-                .iter()
-                .map(|func| {
-                    cfg.iter()
-                        .position(|other| func.entry().id() == other.id())
-                        .unwrap()
-                })
-                .collect::<Vec<_>>(),
-            func_exit: node
-                .functions()
-                .iter()
-                .map(|func| {
-                    cfg.iter()
-                        .position(|other| func.exit().id() == other.id())
-                        .unwrap()
-                })
-                .collect::<Vec<_>>(),
+            func_entry: owners.iter().map(|(entry, _)| *entry).collect::<Vec<_>>(),
+            func_exit: owners.iter().map(|(_, exit)| *exit).collect::<Vec<_>>(),
             nexts: node
                 .nexts()
                 .iter()
